@@ -48,7 +48,17 @@ pub fn run(ctx: &mut Ctx) {
     // (c) scripted: every kind of unauthenticated or refused frame arrives between two messages of a side, on both
     // sides, then that side sends again (a refused frame must not move the SEND counter of its recipient)
     let frames = [Delivery::NoData(0), Delivery::NoData(1), Delivery::NoData(2), Delivery::NoData(3), Delivery::NoData(4), Delivery::Garbage,
-                  Delivery::BitFlip(0, 7), Delivery::Truncate(0, 3), Delivery::Foreign, Delivery::Reflect, Delivery::Replay(0), Delivery::CraftedNotCbor, Delivery::CraftedNotStruct];
+                  Delivery::BitFlip(0, 7), Delivery::Truncate(0, 3), Delivery::Foreign, Delivery::Reflect, Delivery::Replay(0), Delivery::CraftedNotCbor, Delivery::CraftedNotStruct, Delivery::CraftedZeroKey];
+    // (d) genuine messages that also carry a status member (10, 11, 20), in every round of a three-round session, and a
+    // message under the all-zero key after each
+    for k in 0..3u8 {
+        let mut ops = vec![];
+        for r in 0..3usize {
+            ops.extend([TOp::NewRequest(r), TOp::DeliverReq(Delivery::LatestWithStatus(k)), TOp::DeliverReq(Delivery::CraftedZeroKey), TOp::Prepare(vec![0], false), TOp::NextPayload, TOp::Submit(true), TOp::Retrieve,
+                        TOp::DeliverResp(Delivery::LatestWithStatus(k)), TOp::DeliverResp(Delivery::CraftedZeroKey)]);
+        }
+        run_trace(ctx, "scripted_status_with_data", 1, ops, Some("c07.spec_emissions"));
+    }
     for f in frames.iter() {
         let mut ops = vec![TOp::NewRequest(1), TOp::DeliverResp(f.clone()), TOp::NewRequest(2), TOp::DeliverReq(Delivery::Latest)];
         ops.extend([TOp::Prepare(vec![0], false), TOp::NextPayload, TOp::Submit(true), TOp::Retrieve, TOp::DeliverReq(f.clone())]);
